@@ -26,12 +26,19 @@ def optB : Option Bytes → Bytes
     OPCR, splicing point, transport private data, extension), the optional parts in that order
     (PCR 6 bytes, OPCR 6 bytes, splice countdown 1 byte, private-data length byte + data, extension)
     and 0xFF stuffing. -/
+def spliceBytes : Option Nat → Bytes
+  | some n => [byte n]
+  | none => []
+
+def privBytes : Option Bytes → Bytes
+  | some p => byte p.length :: p
+  | none => []
+
 def afBody (disc ra esp : Bool) (pcr opcr : Option Bytes) (splice : Option Nat) (priv : Option Bytes)
     (ext : Option Bytes) (stuffing : Nat) : Bytes :=
   byte (disc.toNat * 128 + ra.toNat * 64 + esp.toNat * 32 + pcr.isSome.toNat * 16 + opcr.isSome.toNat * 8 +
         splice.isSome.toNat * 4 + priv.isSome.toNat * 2 + ext.isSome.toNat) ::
-  (optB pcr ++ optB opcr ++ (match splice with | some n => [byte n] | none => []) ++
-   (match priv with | some p => byte p.length :: p | none => []) ++ optB ext ++ List.replicate stuffing 0xFF)
+  (optB pcr ++ optB opcr ++ spliceBytes splice ++ privBytes priv ++ optB ext ++ List.replicate stuffing 0xFF)
 
 def adaptationField (disc ra esp : Bool) (pcr opcr : Option Bytes) (splice : Option Nat) (priv : Option Bytes)
     (ext : Option Bytes) (stuffing : Nat) : Bytes :=
